@@ -549,15 +549,18 @@ std::string matchOne(const RawResponse &r, const Item &e, std::string &sig)
     }
     return "";
   case Kind::Unparseable:
-    if (tok)
+    if (tok && *tok != e.token)
     {
       sig = "C16/response-order";
       return "expected an error response for (" + e.desc + "), got " + showResp(r);
     }
-    if (r.status < 400)
+    // the request's own token comes back only if the server dispatched it to a handler, i.e. took
+    // it for a well-formed request (the handler answers 200 for these tokens)
+    if (tok || r.status < 400)
     {
-      sig = "C16/unparseable-accepted";
-      return pbt::Fmt() << "(" << e.desc << "): expected an error status, got " << showResp(r);
+      sig = (r.status >= 200 && r.status < 300) ? "C16/unparseable-request-answered-ok" : "C16/unparseable-accepted";
+      return pbt::Fmt() << "(" << e.desc << "): the request cannot be parsed, yet it was "
+                        << (tok ? "dispatched to a handler and " : "") << "answered with " << showResp(r);
     }
     return "";
   }
@@ -979,10 +982,23 @@ Item rawUnparseable(const std::string &wire, const std::string &why, bool badChu
   return it;
 }
 
-Item unparseableItem(int sub, const std::string &tok)
+constexpr int kUnparseableKinds = 24;
+
+// chunk-size line of `extraDigits` + 16 hex digits whose value mod 2^64 is `low`
+std::string overflowingChunkSize(const std::string &highDigits, std::uint64_t low, bool upper)
+{
+  char b[32];
+  std::snprintf(b, sizeof b, upper ? "%016llX" : "%016llx", static_cast<unsigned long long>(low));
+  return highDigits + b;
+}
+
+Item unparseableItemRaw(int sub, const std::string &tok)
 {
   const std::string H = "Host: c16.test\r\nX-Tok: " + tok + "\r\n";
-  switch (sub % 15)
+  const std::string CH = "POST /e/a HTTP/1.1\r\n" + H + "Transfer-Encoding: chunked\r\n\r\n";
+  auto chunked = [&](const std::string &sizeLine, const std::string &rest, const std::string &why)
+  { return rawUnparseable(CH + sizeLine + "\r\n" + rest, "chunked body, " + why + " (chunk-size '" + sizeLine + "')"); };
+  switch (sub % kUnparseableKinds)
   {
   case 0: return rawUnparseable("get /e/a HTTP/1.1\r\n" + H + "\r\n", "lower-case method");
   case 1: return rawUnparseable("G(T /e/a HTTP/1.1\r\n" + H + "\r\n", "method is not a token");
@@ -998,10 +1014,32 @@ Item unparseableItem(int sub, const std::string &tok)
   case 11: return rawUnparseable("POST /e/a HTTP/1.1\r\n" + H + "Content-Length: 99999999999\r\n\r\n", "Content-Length beyond the body limit");
   case 12: return rawUnparseable("GET /e/a\r\n" + H + "\r\n", "request line without version");
   case 13: return rawUnparseable("GET /e/a HTTP/1.1\r\nHost: \r\nX-Tok: " + tok + "\r\n\r\n", "empty Host value");
+  case 14:
+    return rawUnparseable(CH + "ZZ\r\nhello\r\n0\r\n\r\n", "chunked body with chunk-size 'ZZ'", true);
+  // chunk sizes of 2^64 and more (17-20 hex digits) and 16-digit values near 2^64: the size is far
+  // beyond every body limit; a parser that lets it wrap sees a small, plausible number instead
+  case 15: return chunked(overflowingChunkSize("1", 100, false), "hello\r\n0\r\n\r\n", "size >= 2^64 whose low 64 bits (100) exceed the data that follows");
+  case 16: return chunked(overflowingChunkSize("ABCD", 5, true), "hello\r\n0\r\n\r\n", "20-digit size whose low 64 bits equal the data length");
+  case 17: return chunked(overflowingChunkSize("1", 5, false), "hello\r\n0\r\n\r\n", "size 2^64+5 in front of 5 data octets");
+  case 18: return chunked(overflowingChunkSize("10", 0, false), "\r\n", "18-digit size whose low 64 bits are zero (looks like the last chunk)");
+  case 19: return chunked("FFFFFFFFFFFFFFFF", "hello\r\n0\r\n\r\n", "size 2^64-1");
+  case 20: return chunked("FFFFFFFFFFFFFFEC", "hello\r\n0\r\n\r\n", "size 2^64-20 (offset arithmetic wraps)");
+  case 21: return chunked("8000000000000005", "hello\r\n0\r\n\r\n", "size 2^63+5");
+  case 22: return chunked(overflowingChunkSize("aBc", 3000, false), "hello\r\n0\r\n\r\n", "19-digit size whose low 64 bits (3000) exceed the data that follows");
   default:
-    return rawUnparseable("POST /e/a HTTP/1.1\r\n" + H + "Transfer-Encoding: chunked\r\n\r\nZZ\r\nhello\r\n0\r\n\r\n",
-                          "chunked body with chunk-size 'ZZ'", true);
+    return chunked("5", "hello\r\n" + overflowingChunkSize("f", 5, true) + "\r\nworld\r\n0\r\n\r\n",
+                   "second chunk of size 15*2^64+5 in front of 5 data octets");
   }
+}
+
+Item unparseableItem(int sub, const std::string &tok)
+{
+  Item it = unparseableItemRaw(sub, tok);
+  // if the server takes the request for well-formed and runs the handler, the handler answers 200
+  // and echoes this token - which the oracle then sees (instead of an anonymous harness status)
+  it.token = tok;
+  it.beh = Behaviour{SetContent, 200, 3, 0};
+  return it;
 }
 
 void labelAndRun(const Plan &plan, pbt::Case &c)
@@ -1211,7 +1249,7 @@ PBT_PROPERTY(serve)
       }
       else
       {
-        int sub = static_cast<int>(r[7] % 15);
+        int sub = static_cast<int>(r[7] % kUnparseableKinds);
         if (sub == 14 && knownBadChunk)
         {
           c.label("excluded: bad chunk-size (known " + std::string(SIG_BAD_CHUNK_STALL) + ")");
@@ -1354,6 +1392,21 @@ PBT_REGRESSION(bad_chunk_size)
   cp.items.push_back(get("ok", "/e/a", beh(SetContent, 200, 5, 0)));
   cp.items.push_back(unparseableItem(14, "bc"));
   p.conns.push_back(cp);
+  labelAndRun(p, c);
+}
+
+// chunk sizes of 2^64 and more must be rejected, not reduced mod 2^64 (seeded change C16-D)
+PBT_REGRESSION(chunk_size_overflow)
+{
+  Plan p;
+  // kinds that a wrapping parser answers 200 first (data oracle), the ones it stalls on last (bounded wait)
+  for (int sub : {17, 16, 18, 23, 19, 20, 21, 15, 22})
+  {
+    ConnPlan cp;
+    cp.items.push_back(get("ok" + std::to_string(sub), "/e/a", beh(SetContent, 200, 5, 0)));
+    cp.items.push_back(unparseableItem(sub, "ov" + std::to_string(sub)));
+    p.conns.push_back(cp);
+  }
   labelAndRun(p, c);
 }
 
